@@ -909,10 +909,11 @@ def reshape(x, shape, *more):
     x = _lift(x)
     shape = list(shape)
     # resolve a single -1
-    if any(isinstance(s, int) and s == -1 for s in shape):
+    if any(isinstance(s, int) and not isinstance(s, bool) and s == -1 for s in shape):
         if len([s for s in shape if isinstance(s, int) and s == -1]) > 1:
             raise ShapeError("can only specify one unknown dimension")
-        # determine by consuming: handled below by 'wild'
+        at = [n for n, s in enumerate(shape) if isinstance(s, int) and s == -1][0]
+        return _reshape_wild(x, shape[:at], shape[at + 1:])
     src = []   # flat list of elementary items: ('c', IV) or ('d', DSum)
     for a in x.axes:
         if isinstance(a, DSum):
